@@ -4,6 +4,7 @@ from sx import spec as SP, obs as O, term as T
 from . import common as C
 
 ID = 'C14'
+AGEABLE = True        # a quarter of the configurations build their operands as objects with a past (props/common.py)
 ENCODED = ['Fxp.__lshift__', 'Fxp.__rshift__', 'utils.min_pow2', 'Fxp.__init__', 'Fxp.set_val', 'Fxp.deepcopy']
 ASSUMPTIONS = ['operand holds an arbitrary in-range code; shift counts are concrete (0 .. n_word+3, n_word+n <= 62)',
                'ceil(log2(m + 0.5)) is resolved to the exact bit-length function (glibc agrees for m < 2^45; checked at every replayed witness)',
